@@ -190,3 +190,15 @@ Definition ufs_looks_at_the_tree : bool :=                        (* C16: Lstat 
 Definition ufs_reports_errno : bool := has "call:As" (shape_of "toError").   (* C17 *)
 Definition ufs_attach_anchors_at_root : bool :=                   (* C18: Join(root, Join("/", aname)) *)
   Nat.eqb (count_ev "call:Join" (shape_of "Ufs.Attach")) 2 && negb (has "call:Clean" (shape_of "Ufs.Attach")).
+
+
+(* every copy in a receive loop goes into a buffer allocated just before (never inside the buffer that holds
+   delivered messages), and the loops only move forward in their buffer: the shape assumed by Recv/Views.v *)
+Fixpoint every_copy_follows_make (l : list string) : bool :=
+  match l with
+  | x :: ((y :: _) as r) => (if String.eqb y "call:copy" then String.eqb x "call:make" else true) && every_copy_follows_make r
+  | _ => true
+  end.
+Definition recv_never_compacts : bool :=
+  (let r := shape_of "Conn.recv" in every_copy_follows_make r && Nat.leb 2 (count_ev "call:copy" r))
+  && (let r := shape_of "Clnt.recv" in every_copy_follows_make r && Nat.leb 2 (count_ev "call:copy" r)).
